@@ -119,7 +119,14 @@ def span(ctx):
                str([(e[3], e[2].mode) for e in acq]), fn=f.label, inst=f.qname)
         reads = [st for st in f.stmts.values() if st["k"] == "CXXMemberCallExpr" and
                  path(f, f.s(st["obj"])) == "this.m_data" and "lock_shared" in st["callee"]["name"]]
-        ok = bool(reads) and all(la.holds(f.pos_of(r), "this.m_writeMutex", "X") for r in reads)
+        # the owned lock may already live in the deleter of the handle under construction
+        # (`handle w(nullptr, deleter(std::unique_lock<M>(m_writeMutex), *this)); w.reset(new T(...)); return w;`)
+        carrier = _lock_carrier(ctx, f, la)
+        def held_at(pos):
+            if la.holds(pos, "this.m_writeMutex", "X"):
+                return True
+            return carrier is not None and f.dominates(tuple(carrier["pos"]), tuple(pos)) and tuple(carrier["pos"]) != tuple(pos)
+        ok = bool(reads) and all(held_at(f.pos_of(r)) for r in reads)
         ctx.ob(rid, ok, f.where, "the committed value is read only after the writer mutex is held (each writer starts "
                "from the latest commit)", "" if ok else "m_data is read before/without the writer lock: two writers can "
                "copy the same version and one update is lost", fn=f.label, inst=f.qname)
@@ -157,6 +164,19 @@ def span(ctx):
                 src = path(f, init) if init is not None else None      # scalar payloads: new int(**data)
             if hv and src == "**" + hv:
                 ok = True
+            # the read handle as a temporary of the same full expression: new T(**m_data.lock_shared())
+            a = f.s(init["args"][0]) if init is not None and init["k"] in CTORS and len(init["args"]) == 1 else init
+            for _ in range(2):
+                a = unwrap(f, a)
+                if a is not None and (a["k"] == "UnaryOperator" and a.get("op") == "*" or
+                                      a["k"] == "CXXOperatorCallExpr" and (a.get("callee") or {}).get("name") == "operator*"):
+                    a = f.children(a)[-1] if a["k"] == "UnaryOperator" else f.s(a["args"][0])
+                else:
+                    a = None
+                    break
+            a = unwrap(f, a)
+            if a is not None and any(a["id"] == r["id"] for r in reads):
+                ok = True
         ctx.ob(rid, ok, f.where, "the write handle points to a fresh deep copy of the committed value",
                "" if ok else "no 'new T(**<read handle>)'", fn=f.label, inst=f.qname)
         # deleter(std::move(guard), *this) with guard owned
@@ -181,6 +201,8 @@ def span(ctx):
                 p0 = unwrap(f, f.s(e["args"][0]))
                 if p0 is not None and p0["k"] == "CXXMemberCallExpr" and p0["callee"]["name"] == "release":
                     ok = True
+            if e is not None and carrier is not None and path(f, e) == carrier["var"] and carrier["owns_new"]:
+                ok = True
         ctx.ob(rid, ok, f.where, "the handle takes sole ownership of the private copy (release())", "", fn=f.label, inst=f.qname)
     for f in fb.functions(rec=DEL):
         if f.kind == "ctor" and len(f.params) == 2 and not f.defaulted:
@@ -194,6 +216,49 @@ def span(ctx):
             c = unwrap(f, ini.get("m_cancelled"))
             ok = c is not None and c["k"] == "CXXBoolLiteralExpr" and c["v"] is False
             ctx.ob(rid, ok, f.where, "a new deleter is not cancelled", "", fn=f.label, inst=f.qname)
+
+
+def _lock_carrier(ctx, f, la):
+    """a local write handle that is built around a deleter already owning the writer lock, receives the private copy
+    through reset(new ...) and is what lock() returns.  None if there is no such local; ctx.unknown for a local that is
+    used in a way this reading does not cover"""
+    eng = ctx.eng
+    for st in f.stmts.values():
+        if st["k"] != "DeclStmt" or len(st["decls"]) != 1 or not st["decls"][0].get("init"):
+            continue
+        d = st["decls"][0]
+        dels = [x for x in f.descendants(f.s(d["init"])) if x["k"] in CTORS and x.get("t", "").endswith("::deleter") and len(x["args"]) == 2]
+        if not dels or f.pos_of(st) is None:
+            continue
+        v = eng._lock_value(f, la, f.s(dels[0]["args"][0]), f.pos_of(dels[0]) or f.pos_of(st))
+        if v is None or v.st != HELD or v.mutex != "this.m_writeMutex":
+            continue
+        var = "l:" + d["name"]
+        owns_new = False
+        for u in f.stmts.values():
+            if u["k"] == "DeclRefExpr" and u["d"].get("id") == d["id"]:
+                par = f.par(u)
+                while par is not None and par["k"] in ("ImplicitCastExpr", "ParenExpr"):
+                    par = f.par(par)
+                if par is None:
+                    continue
+                if par["k"] == "MemberExpr":
+                    call = f.par(par)
+                    nm = par["m"]["name"]
+                    if nm == "reset" and call is not None and call["k"] == "CXXMemberCallExpr" and len(call["args"]) == 1 and \
+                            (unwrap(f, f.s(call["args"][0])) or {}).get("k") == "CXXNewExpr":
+                        owns_new = True
+                        continue
+                    if nm in ("get", "operator->", "operator*", "operator bool"):
+                        continue
+                if par["k"] in ("ReturnStmt", "CXXConstructExpr") or par["k"] == "CXXOperatorCallExpr" and \
+                        (par.get("callee") or {}).get("name") in ("operator*", "operator->"):
+                    continue
+                ctx.unknown("%s: the write handle '%s' carries the writer lock and is used at %s in a way the span rule does not read"
+                            % (f.label, d["name"], f.loc(u)))
+                return None
+        return dict(var=var, pos=f.pos_of(st), owns_new=owns_new)
+    return None
 
 
 def commit(ctx):
@@ -370,6 +435,16 @@ def reader(ctx):
             reads = [st for st in f.stmts.values() if st["k"] == "CXXMemberCallExpr" and
                      path(f, f.s(st["obj"])) == "this.m_data"]
             ok = bool(reads) and all("lock_shared" in r["callee"]["name"] for r in reads)
+            if not reads:
+                # one reader written in terms of another (`lock_shared() { return try_lock_shared(); }`): no access to
+                # m_data of its own, the sibling is the one that is judged (it is in this same list)
+                sib = [fb.callee_fn(f, c) for c in f.stmts.values() if c["k"] == "CXXMemberCallExpr" and
+                       path(f, f.s(c.get("obj"))) == "this" and fb.callee_fn(f, c) is not None]
+                touches = any(st["k"] == "MemberExpr" and st["m"].get("is_field") and st["m"]["name"] == "m_data" for st in f.stmts.values())
+                if sib and not touches and all(g.rec == COW and g.name != nm and g.name in
+                                               ("lock_shared", "try_lock_shared", "try_lock_shared_for", "try_lock_shared_until") for g in sib):
+                    ctx.ob(rid, True, f.where, "%s gets the committed value from its sibling %s" % (nm, sib[0].name), "", fn=f.label, inst=f.qname)
+                    continue
             ctx.ob(rid, ok, f.where, "%s reads m_data only through the left-right read handle" % nm,
                    "" if ok else str([r["callee"]["name"] for r in reads]), fn=f.label, inst=f.qname)
             for r in reads:
